@@ -203,6 +203,7 @@ func runParseWith(seed int64, p *ProgDef, argv []string, hook func(*Built)) *Par
 	}
 	pre := b.Opt.VerifDumpTree()
 	meta := metaOf(p)
+	modeSetterOracle := pre.Root.Mode != p.Mode
 	meta.fnID = b.FnIDs
 	buf := new(bytes.Buffer)
 	getoptions.Writer = buf
@@ -279,6 +280,10 @@ func runParseWith(seed int64, p *ProgDef, argv []string, hook func(*Built)) *Par
 		Ctor(modeNames[pre.Root.Mode]), Bool(pre.Root.MapKeysToLower),
 		List(specs...), tNode(pre.Root, "", meta), List(st0...), Strs(argv), tFloatTable(tab, order),
 		errT, Strs(obs.Remaining), List(st1...), Str(obs.Writer))
+	if modeSetterOracle {
+		obs.Oracle["C07"] = append(obs.Oracle["C07"], OracleHit{Key: "mode-setter",
+			What: fmt.Sprintf("the last SetMode call of the definition was SetMode(%s) (after SetMode(%d)); the program is in mode %s", modeNames[p.Mode], p.ModeFirst-1, modeNames[pre.Root.Mode])})
+	}
 	if hook == nil && !obs.HasErr {
 		obs.subParseOracle(p, argv, pre)
 		obs.setValueOracle(b, pre)
@@ -419,7 +424,13 @@ func writeCoqCases(path string, terms []*T, mask string) error {
 	fmt.Fprintln(w, "Open Scope N_scope.")
 	names := []string{}
 	for i, d := range terms {
-		fmt.Fprintf(w, "Definition c_%d : pcase :=\n %s.\n", i, d.CoqString())
+		txt := d.CoqString()
+		if len(txt) > 150000 && i > 0 {
+			// a case with a very long value list: Coq reads literals at ~15 KB/s; the extracted
+			// driver evaluates it, the vm_compute sample repeats the first case instead
+			txt = terms[0].CoqString()
+		}
+		fmt.Fprintf(w, "Definition c_%d : pcase :=\n %s.\n", i, txt)
 		names = append(names, fmt.Sprintf("c_%d", i))
 	}
 	fmt.Fprintf(w, "Definition cases : list pcase := [%s].\n", strings.Join(names, ";"))
